@@ -197,7 +197,7 @@ def tlc_sim(ctx, module, cfg, num, depth, seed, timeout=300, tag=None):
     return res
 
 
-def tlc_trace(ctx, module, cfg, trace_path, timeout=300, tag=None, trace_name='trace.ndjson'):
+def tlc_trace(ctx, module, cfg, trace_path, timeout=300, tag=None, trace_name='trace.ndjson', done_inv=None):
     """Trace validation: copies the trace next to the spec, runs TLC (1 worker, depth-first queue) and reports
     (accepted, highwater, stats, out).  Acceptance is decided by the POSTCONDITION of the cfg."""
     tag = tag or ('trace-' + cfg.replace('.cfg', ''))
@@ -213,6 +213,10 @@ def tlc_trace(ctx, module, cfg, trace_path, timeout=300, tag=None, trace_name='t
     if 'distinct' not in st and 'Error' in out and 'Postcondition' not in out and 'postcondition' not in out:
         raise Infra(f'TLC failed on trace {module}/{cfg}:\n' + out[-4000:])
     accepted = ('Model checking completed. No error has been found' in out)
+    if done_inv and f'Invariant {done_inv} is violated' in out:
+        # the cfg lists "the trace is not yet consumed" as an INVARIANT: its violation means a complete explanation of the
+        # trace was found, and lets the depth-first search stop there instead of enumerating every other explanation
+        accepted = True
     if not accepted and not re.search(r'[Pp]ostcondition|is violated|Invariant .* is violated', out):
         raise Infra(f'TLC failed on trace {module}/{cfg}:\n' + out[-4000:])
     ctx.states += st.get('distinct', 0)
@@ -302,7 +306,7 @@ def action_sig(beh):
     return ' '.join(s.get('a', '?') for s in beh)
 
 
-def validate_batch(ctx, module, cfg, runs, tag, bad_events=('error', 'hang', 'notreached', 'openerror', 'childerror')):
+def validate_batch(ctx, module, cfg, runs, tag, bad_events=('error', 'hang', 'notreached', 'openerror', 'childerror'), done_inv=None, timeout=900):
     """runs: list of event lists (each starting with a reset event).  All runs are concatenated and validated by ONE TLC
     run; on rejection the high-water mark names the run that could not be explained, which is removed and the rest is
     validated again.  Returns the indexes of the rejected runs."""
@@ -322,7 +326,7 @@ def validate_batch(ctx, module, cfg, runs, tag, bad_events=('error', 'hang', 'no
                 owner.append(i)
         tp = os.path.join(ctx.sub('traces'), f'{tag}-{rounds}.ndjson')
         write_ndjson(tp, lines)
-        ok, hw, st, out = tlc_trace(ctx, module, cfg, tp, timeout=900, tag=f'{tag}-{rounds}')
+        ok, hw, st, out = tlc_trace(ctx, module, cfg, tp, timeout=timeout, tag=f'{tag}-{rounds}', done_inv=done_inv)
         if ok:
             break
         if hw is None or hw < 1 or hw > len(lines):
